@@ -1,6 +1,7 @@
 //! The tree engine: scripted contracts + reference interpreter + per-property projections.
 //! Serves C01 C02 C03 C04 C05 C08 C10 C13 C19 (and, with the registry profile, C11 C12).
 
+pub mod det;
 pub mod gen;
 pub mod judge;
 pub mod model;
@@ -218,6 +219,9 @@ pub struct Outcome {
     pub max_depth: usize,
     pub replies: usize,
     pub reply_modes: BTreeSet<(bool, u8)>,
+    /// what the real run did (for the determinism check)
+    pub actual: String,
+    pub kinds: BTreeSet<puppet::Kind>,
 }
 
 impl World {
@@ -394,7 +398,9 @@ impl World {
                 reply_modes.insert((r.ok, 0u8));
             }
         }
-        let out = Outcome { discs, pred_failures: pred.failures, pred_caught: pred.caught, pred_ok: pred.ok, trace_len: pred.trace.len(), sites: pred.sites.clone(), max_depth: it.max_depth, replies, reply_modes };
+        let actual = format!("ok={} panic={:?} responses={:?} trace={:?} storage={:016x}", act.ok, act.panic, act.responses, act.trace, crate::util::fnv(&post_scan.iter().flat_map(|(k, v)| [k.as_slice(), b"=", v.as_slice(), b";"].concat()).collect::<Vec<u8>>()));
+        let kinds: BTreeSet<puppet::Kind> = pred.trace.iter().map(|e| e.kind).collect();
+        let out = Outcome { kinds, actual, discs, pred_failures: pred.failures, pred_caught: pred.caught, pred_ok: pred.ok, trace_len: pred.trace.len(), sites: pred.sites.clone(), max_depth: it.max_depth, replies, reply_modes };
         self.ever = std::mem::take(&mut it.ever_written);
         self.st = it.st;
         out
@@ -442,7 +448,7 @@ fn fault_enumerating(id: &str) -> bool {
     matches!(id, "C01" | "C02" | "C13")
 }
 
-fn hint_contracts() -> Vec<String> {
+pub fn hint_contracts() -> Vec<String> {
     (0..3).map(|i| model::classic_address(1, i)).collect()
 }
 
@@ -541,7 +547,33 @@ impl TreeCheck {
                             w.st = pre_model.clone();
                             w.ever = pre_ever.clone();
                         }
-                        let out = w.run_variant(tx, faults);
+                        let mut out = w.run_variant(tx, faults);
+                        // A discrepancy in a multi-message call that does not show when the same messages
+                        // are executed one by one (App::execute) from the same pre-state is specific to
+                        // execute_multi (order / arity / sharing of one cache) and belongs to C01 alone.
+                        if let TxKind::Multi { sender, msgs } = &tx.kind {
+                            let model_free_first = out.discs.first().map_or(false, |d| d.model_free);
+                            if msgs.len() >= 2 && !out.discs.is_empty() && !model_free_first && !faults.iter().any(|f| matches!(f, Site::Root(_))) {
+                                restore(w.app.storage_mut(), &pre_real);
+                                w.st = pre_model.clone();
+                                w.ever = pre_ever.clone();
+                                let mut clean = true;
+                                for m in msgs {
+                                    let single = Tx { kind: TxKind::Exec { sender: *sender, msg: m.clone(), via: Via::Execute }, nodes: tx.nodes.clone(), qnodes: tx.qnodes.clone() };
+                                    if !w.run_variant(&single, faults).discs.is_empty() {
+                                        clean = false;
+                                        break;
+                                    }
+                                }
+                                if clean {
+                                    for d in out.discs.iter_mut() {
+                                        d.owners = vec!["C01"];
+                                        d.sig = format!("multi:differs-from-one-by-one:{}", d.sig);
+                                        d.msg = format!("{} (the same messages executed one by one from the same state behave as specified)", d.msg);
+                                    }
+                                }
+                            }
+                        }
                         cx.label("calls");
                         if vi + 1 < nvar {
                             cx.label("calls:fault-variant");
@@ -585,12 +617,14 @@ impl TreeCheck {
             "C08" => out.trace_len >= 2,
             "C10" => out.trace_len >= 2,
             "C13" => tx.nodes.iter().any(model::malformed) && out.trace_len >= 1,
+            "C11" => out.kinds.contains(&puppet::Kind::Instantiate) && (out.pred_failures > 0 || out.trace_len >= 2),
+            "C12" => out.kinds.contains(&puppet::Kind::Migrate) || (out.pred_ok && matches!(&tx.kind, TxKind::Exec { msg: Msg::UpdateAdmin { .. } | Msg::ClearAdmin { .. }, .. })),
             _ => out.trace_len >= 2,
         }
     }
 
     /// TxKind::Queries: purity, idempotence, agreement with the committed state (C10)
-    fn app_queries(&self, w: &mut World, tx: &Tx, qs: &[AppQuery]) -> Vec<Disc> {
+    pub fn app_queries(&self, w: &mut World, tx: &Tx, qs: &[AppQuery]) -> Vec<Disc> {
         let mut out = vec![];
         let none = BTreeSet::new();
         for q in qs {
